@@ -106,6 +106,39 @@ Definition device_update (f : ifa) (up : bool) : outcome ifa :=
   else if old_up && negb up then stop f1
   else Ok f1.
 
+(* ---- events that arrive WHILE DeviceUpdate runs (it holds nifa.mu from entry to return) ----
+   The hello ticker may fire, or a frame may arrive, after DeviceUpdate has taken the interface lock
+   and before _stop has closed the done channel. Whether that is harmless depends on a lock
+   discipline of the two routines, which is a parameter of the model:
+     sender_locks   - the hello sender takes nifa.mu between receiving a tick and sending the hello
+     receiver_locks - the receiver takes nifa.mu while processing a frame
+   On HEAD both are false (p2pHello and processPkt read devStatus without the lock). A routine that
+   waits for the lock DeviceUpdate holds cannot see the closed done channel, so _stop's wg.Wait and
+   that routine wait for each other. *)
+Record discipline := mkDisc { sender_locks : bool; receiver_locks : bool }.
+Definition head_discipline : discipline := mkDisc false false.
+
+Inductive during := TickDuring | FrameDuring.
+
+Definition is_open (h : handle) : bool := match h with Open => true | _ => false end.
+
+(* DeviceUpdate with a hello tick / a frame arriving while it holds the lock; the number is the
+   hellos written by the time everything has settled after the call *)
+Definition device_update_during (d : discipline) (f : ifa) (up : bool) (w : during) : outcome (ifa * nat) :=
+  let old_up := dev_known f && oper_up f in
+  let ticked := match w with TickDuring => sender f && ticker_live f | FrameDuring => false end in
+  let framed := match w with FrameDuring => receiver f && is_open (eth f) | TickDuring => false end in
+  bind (if ticked then handle_send (eth f) else Ok false) (fun sent =>
+  let n := if sent then 1 else 0 in
+  if old_up && negb up then
+    (* _stop runs under the lock: a routine stuck on the lock never leaves *)
+    if ticked && sender_locks d then Blocked WaitHelloSender
+    else if framed && receiver_locks d then Blocked WaitReceiver
+    else bind (device_update f up) (fun f' => Ok (f', n))
+  else
+    (* no _stop: a routine that waited for the lock proceeds when DeviceUpdate returns *)
+    bind (device_update f up) (fun f' => Ok (f', n))).
+
 (* ---- the server: its interfaces and the periodic routines that look at them ---- *)
 Definition srv := list ifa.
 
@@ -116,6 +149,13 @@ Fixpoint update_nth (i : nat) (s : srv) (up : bool) : outcome srv :=
   | [], _ => Ok []                                    (* no such interface: nobody subscribed *)
   | f :: r, O => bind (device_update f up) (fun f' => Ok (f' :: r))
   | f :: r, S j => bind (update_nth j r up) (fun r' => Ok (f :: r'))
+  end.
+
+Fixpoint update_nth_during (d : discipline) (i : nat) (s : srv) (up : bool) (w : during) : outcome (srv * nat) :=
+  match s, i with
+  | [], _ => Ok ([], 0%nat)
+  | f :: r, O => bind (device_update_during d f up w) (fun p => Ok (fst p :: r, snd p))
+  | f :: r, S j => bind (update_nth_during d j r up w) (fun p => Ok (f :: fst p, snd p))
   end.
 
 (* generateLocalLSP: getAddressesIPv4 and extendedIPReachabilityTLV visit every interface and
@@ -149,18 +189,23 @@ Fixpoint hello_tick (s : srv) : outcome (list nat) :=
 Definition life (s : srv) : outcome (list nat) :=
   bind (regen s) (fun _ => bind (psnp_tick s) (fun _ => hello_tick s)).
 
-Inductive event := Dev (i : nat) (up : bool).
+Inductive event :=
+| Dev (i : nat) (up : bool)
+| DevDuring (i : nat) (up : bool) (w : during).   (* the update, with a tick / a frame arriving while it runs *)
 
-(* one event followed by one hello interval of server life; the hello counts are the step's output *)
-Definition step (s : srv) (e : event) : outcome (srv * list nat) :=
+(* one event followed by one hello interval of server life; outputs: hellos written while the
+   update ran, and the hello counts of the following interval *)
+Definition step (d : discipline) (s : srv) (e : event) : outcome (srv * (nat * list nat)) :=
   match e with
-  | Dev i up => bind (update_nth i s up) (fun s' => bind (life s') (fun hs => Ok (s', hs)))
+  | Dev i up => bind (update_nth i s up) (fun s' => bind (life s') (fun hs => Ok (s', (0%nat, hs))))
+  | DevDuring i up w =>
+    bind (update_nth_during d i s up w) (fun p => bind (life (fst p)) (fun hs => Ok (fst p, (snd p, hs))))
   end.
 
-Fixpoint run (s : srv) (evs : list event) : outcome srv :=
+Fixpoint run (d : discipline) (s : srv) (evs : list event) : outcome srv :=
   match evs with
   | [] => Ok s
-  | e :: r => bind (step s e) (fun p => run (fst p) r)
+  | e :: r => bind (step d s e) (fun p => run d (fst p) r)
   end.
 
 (* ---- the observable capabilities the property talks about ---- *)
@@ -176,4 +221,5 @@ Fixpoint last_up (evs : list event) (i : nat) (dflt : bool) : bool :=
   match evs with
   | [] => dflt
   | Dev j up :: r => last_up r i (if Nat.eqb i j then up else dflt)
+  | DevDuring j up _ :: r => last_up r i (if Nat.eqb i j then up else dflt)
   end.
